@@ -617,12 +617,37 @@ def writes_inventory(path):
                 out.append((qual, 'reflect', ast.unparse(n)))
             elif isinstance(n, ast.Call) and isinstance(n.func, ast.Name) and n.func.id in REFLECTIVE:
                 out.append((qual, 'reflect', ast.unparse(n)[:60]))
+    PLAIN_DECORATORS = {'classmethod', 'staticmethod', 'property', 'total_ordering'}
+
+    def decorators(node, qual):
+        # a decorator can keep state between calls (functools.lru_cache, cached_property ...): all but the plain ones are listed
+        for d in node.decorator_list:
+            text = ast.unparse(d)
+            if text in PLAIN_DECORATORS or text.endswith(('.setter', '.getter', '.deleter')):
+                continue
+            out.append((qual, 'decorator', text[:60]))
     for n in tree.body:
         if isinstance(n, (ast.FunctionDef, ast.AsyncFunctionDef)):
+            decorators(n, n.name)
             visit_fn(n, n.name, False)
-        elif isinstance(n, ast.ClassDef):
+        elif not isinstance(n, (ast.ClassDef, ast.Import, ast.ImportFrom)):
+            # module-level statements other than definitions: writes through attributes / items and mutating calls
+            for x in ast.walk(n):
+                if isinstance(x, ast.Assign):
+                    for t in x.targets:
+                        if not isinstance(t, (ast.Name, ast.Tuple, ast.List)):
+                            out.append(('<module>', 'assign', ast.unparse(t)))
+                elif isinstance(x, (ast.AugAssign, ast.Delete)):
+                    out.append(('<module>', 'assign', ast.unparse(x)[:60]))
+                elif isinstance(x, ast.Attribute) and isinstance(x.ctx, ast.Load) and x.attr in MUTATORS:
+                    out.append(('<module>', 'mutator', ast.unparse(x)))
+                elif isinstance(x, ast.Call) and isinstance(x.func, ast.Name) and x.func.id in REFLECTIVE:
+                    out.append(('<module>', 'reflect', ast.unparse(x)[:60]))
+        if isinstance(n, ast.ClassDef):
+            decorators(n, n.name)
             for m in n.body:
                 if isinstance(m, (ast.FunctionDef, ast.AsyncFunctionDef)):
+                    decorators(m, n.name + '.' + m.name)
                     visit_fn(m, n.name + '.' + m.name, m.name == '__init__')
                 elif isinstance(m, (ast.Assign, ast.AnnAssign)) and m.value is not None:
                     v = m.value
